@@ -184,8 +184,15 @@ func monitor(c hxlib.Case, outs []string) (vs []hxlib.Violation) {
 		return nil
 	}
 	root := resolveAbs(cfg.vroot)
+	fssAt, fsState := 0, "plain"
 	add := func(i int, sig, what string) {
+		if fssAt > 0 {
+			sig += ":fs=" + fsState
+		}
 		lines, out := []string{c.Lines[0], c.Lines[i]}, []string{outs[0], outs[i]}
+		if fssAt > 0 { // the state of the file system below the root is part of the input
+			lines, out = []string{c.Lines[0], c.Lines[fssAt], c.Lines[i]}, []string{outs[0], outs[fssAt], outs[i]}
+		}
 		if cfg.comp == "dsh" {
 			// a history: the replay is the case up to the failing call
 			lines, out = append([]string{}, c.Lines[:i+1]...), append([]string{}, outs[:i+1]...)
@@ -199,6 +206,14 @@ func monitor(c hxlib.Case, outs []string) (vs []hxlib.Violation) {
 		f := strings.Fields(c.Lines[i])
 		o := outs[i]
 		if len(f) < 2 || o == "bad-op" {
+			continue
+		}
+		if f[0] == "fss" {
+			fssAt, fsState = i, f[1]
+			if f[1] == "plain" {
+				fssAt = 0
+			}
+			count("fs-state:" + f[1])
 			continue
 		}
 		if cfg.comp == "dsh" && f[0] == "chd" && len(f) == 4 {
@@ -264,7 +279,7 @@ func monitor(c hxlib.Case, outs []string) (vs []hxlib.Violation) {
 			}
 		}
 		// (3) nothing returned comes from outside
-		if len(df) == 3 && df[0] == "acc" && df[2] != "_" {
+		if len(df) >= 3 && df[0] == "acc" && df[2] != "_" {
 			items, ok := unhxList(df[2])
 			if df[1] == "dirsm" { // items are "<hex path>:<mode>"
 				items, ok = nil, true
